@@ -254,9 +254,15 @@ def legal(p):
             )
         return False
 
-    if rname in lets:  # register named like a let: references are ambiguous, but the program is
-        pass  # invalid anyway (duplicate definition); kept for the outcome histogram
-    return all(ok(s, "top", False, False) for s in p[2])
+    if not all(ok(s, "top", False, False) for s in p[2]):
+        return False
+    # an untyped gate gets its arity at first use: one arity per gate name (prepare/measure: none)
+    arity = {PREPARE: 0, MEASURE: 0}
+    for top in p[2]:
+        for s in ast.walk(top):
+            if s[0] == "gate" and arity.setdefault(s[1], len(s[2])) != len(s[2]):
+                return False
+    return True
 
 
 def user_names(p):
@@ -696,6 +702,11 @@ class C17(Check):
             if emit(c):
                 yield c
         _, header, body = case
+        # splice the children of any block / loop / subcircuit into its parent
+        for b in _splices(body):
+            c = ("prog", header, b)
+            if emit(c):
+                yield c
         lets = {h[1]: h[2] for h in header if h[0] == "let"}
         # replace every use of one let by its value
         for name, value in lets.items():
@@ -719,6 +730,47 @@ class C17(Check):
                         if emit(c):
                             yield c
                         break
+        # plain user names in canonical positions: register q, lets n k x
+        targets = iter(("n", "k", "x"))
+        canon_map = {}
+        for h in header:
+            if h[1] in SIMPLE_NAMES:
+                canon_map[h[1]] = "q" if h[0] == "register" else next(targets)
+        if any(k != v for k, v in canon_map.items()) and len(canon_map) == len(
+            [h for h in header if h[1] in SIMPLE_NAMES]
+        ):
+            tmp = rename(case, {k: v + "'" for k, v in canon_map.items()})
+            c = rename(tmp, {v + "'": v for v in canon_map.values()})
+            if emit(c):
+                yield c
+        # one gate name
+        c = _rename_gates(case, "h", "g")
+        if emit(c):
+            yield c
+        # a user name of the auto-namer's form -> an earlier name of the alphabet
+        for i, h in enumerate(header):
+            if h[1] in NAMES:
+                for cand in NAMES[: NAMES.index(h[1])]:
+                    if cand not in used:
+                        c = _rename_item(case, i, cand)
+                        if emit(c):
+                            yield c
+        # placeholders numbered in order of declaration
+        want = {}
+        for h in header:
+            if is_anon(h[1]) and h[0] == "let":
+                want[h[1]] = "?c%d" % len(want)
+        if any(k != v for k, v in want.items()):
+            tmp = rename(case, {k: v + "'" for k, v in want.items()})
+            c = rename(tmp, {v + "'": v for v in want.values()})
+            if emit(c):
+                yield c
+        # let values -> 1
+        for i, h in enumerate(header):
+            if h[0] == "let" and not (isinstance(h[2], int) and h[2] == 1):
+                c = ("prog", header[:i] + (("let", h[1], 1),) + header[i + 1:], body)
+                if emit(c):
+                    yield c
         # smaller register
         for i, h in enumerate(header):
             if h[0] == "register" and isinstance(h[2], int) and h[2] > 1:
@@ -985,6 +1037,51 @@ def _map_refs(p, fn):
 
     header = tuple((h[0], h[1], fn(h[2])) if h[0] == "register" else h for h in p[1])
     return ("prog", header, tuple(st(s) for s in p[2]))
+
+
+def _kids(s):
+    k = s[0]
+    if k in ("seq", "par"):
+        return s[1]
+    if k == "sub":
+        return s[2]
+    if k == "loop":
+        return s[2][1]
+    return None
+
+
+def _with_kids(s, kids):
+    k = s[0]
+    if k in ("seq", "par"):
+        return (k, kids)
+    if k == "sub":
+        return ("sub", s[1], kids)
+    return ("loop", s[1], ("seq", kids))
+
+
+def _splices(items):
+    """every statement list obtained by replacing one nested node by its children"""
+    for i, s in enumerate(items):
+        kids = _kids(s)
+        if kids is None:
+            continue
+        yield items[:i] + tuple(kids) + items[i + 1:]
+        for v in _splices(kids):
+            yield items[:i] + (_with_kids(s, v),) + items[i + 1:]
+
+
+def _rename_gates(p, old, new):
+    def st(s):
+        k = s[0]
+        if k == "gate":
+            return ("gate", new if s[1] == old else s[1], s[2])
+        if k in ("seq", "par"):
+            return (k, tuple(st(c) for c in s[1]))
+        if k == "sub":
+            return ("sub", s[1], tuple(st(c) for c in s[2]))
+        return ("loop", s[1], st(s[2]))
+
+    return ("prog", p[1], tuple(st(s) for s in p[2]))
 
 
 def _inline(p, name, value):
